@@ -392,7 +392,7 @@ func runC09Struct(ctx *core.Ctx) {
 		}
 	}
 	// seeded random
-	for i, k := 0, ctx.Pick(1000, 40000); i < k; i++ {
+	for i, k := 0, ctx.Pick(1000, 80000); i < k; i++ {
 		n := names[ctx.Rng.Intn(len(names))]
 		if ctx.Rng.Intn(4) == 0 {
 			n = []string{"ServiceConfig", "Project", "BuildConfig", "DeployConfig"}[ctx.Rng.Intn(4)]
